@@ -294,7 +294,9 @@ pub fn gen(r: &mut Rng) -> Value {
         // 1..3 arguments; some are written as an empty string or as a reference to an undefined variable
         let n = 1 + r.below(3);
         let args: Vec<Value> = (0..n).map(|k| match r.below(6) { 0 => json!(["\"\"", ""]), 1 => json!(["${nope}", ""]), _ => json!([format!("a{}{}", i, k), format!("a{}{}", i, k)]) }).collect();
-        json!({"out": if r.chance(3, 4) { json!(format!("o{}", r.below(2))) } else { Value::Null }, "args": args})
+        // some calls are made from inside a for-in loop of the caller (the callee may leave its own loops through return)
+        let lp = if i > 0 && r.chance(1, 3) { 1 + r.below(3) } else { 0 };
+        json!({"out": if r.chance(3, 4) { json!(format!("o{}", r.below(2))) } else { Value::Null }, "args": args, "loop": lp})
     }).collect();
     json!({ "body": body, "calls": calls, "scoped": r.chance(1, 3), "preset": r.chance(1, 2) })
 }
@@ -368,15 +370,26 @@ fn run_inner(input: &Value) -> Option<Value> {
     if input["preset"].as_bool().unwrap_or(false) {
         lines.push("o0 = set old".to_string());
     }
-    for c in &calls {
+    for (ci, c) in calls.iter().enumerate() {
         let arg: Vec<String> = c["args"].as_array()?.iter().map(|a| a[0].as_str().unwrap_or("").to_string()).collect();
         let arg = arg.join(" ");
+        let lp = c["loop"].as_u64().unwrap_or(0);
+        if lp > 0 {
+            lines.push(format!("hd{} = range 0 {}", ci, lp));
+            lines.push(format!("for hx{} in ${{hd{}}}", ci, ci));
+        }
         match c["out"].as_str() {
             Some(o) => lines.push(format!("{} = f {}", o, arg)),
             None => lines.push(format!("f {}", arg)),
         }
+        if lp > 0 {
+            lines.push("end".to_string());
+            lines.push(format!("release ${{hd{}}}", ci));
+        }
     }
     let script = lines.join("\n");
+    // a call made from inside a loop of the caller is that call, once per iteration
+    let calls: Vec<Value> = calls.iter().flat_map(|c| std::iter::repeat(c.clone()).take(std::cmp::max(1, c["loop"].as_u64().unwrap_or(0)) as usize)).collect();
     // model
     let mut vars: BTreeMap<String, String> = BTreeMap::new();
     let mut steps = 0;
